@@ -741,10 +741,25 @@ class World(object):
         obj = self.get(op["h"])
         v = obj.eval()
         out = {"value": fhex(v)}
+        if self._leafless(op["h"]):
+            out["leafless"] = True
         if "fresh" in self.oracles:
             from sim import oracles
             oracles.check_fresh(self, op["h"], v)
         return out
+
+    def _leafless(self, name):
+        den = self.den.get(name)
+        kind = self.kind.get(name)
+        if kind == "cons":
+            den = den["expr"]
+        if kind == "psd":
+            return all(all(k[0] == "1" for k in d) for row in den for d in row)
+        if kind == "point":
+            return not den
+        if kind == "expr" or kind == "cons":
+            return all(k[0] == "1" for k in den)
+        return False
 
     def op_eval_dual(self, op):
         obj = self.get(op["h"])
@@ -861,7 +876,8 @@ class World(object):
             if cap.unreadable:
                 self.note("unreadable_seam")
         ok = rec.exc is None and rec.result is not None
-        spontaneous = any(getattr(c.answer, "spontaneous", False) for c in rec.caps if hasattr(c, "answer"))
+        spontaneous = any(getattr(c.answer, "spontaneous", False) for c in rec.caps if hasattr(c, "answer")) \
+            or getattr(rec, "spont_flag", False)
         rec.spontaneous = spontaneous
         if ok and self.epoch is not None:
             self.epoch["last_ok"] = rec.index
@@ -869,6 +885,14 @@ class World(object):
                "transports": [c.transport for c in rec.caps], "sizes": [repr(c.size_tuple()) for c in rec.caps],
                "line_events": rec.line_events, "spontaneous": spontaneous,
                "wrapper_name": getattr(P, "wrapper_name", None)}
+        if self.opts.get("dump_seam"):
+            out["seam"] = [{"transport": c.transport, "sense": c.sense, "obj": list(c.obj_sig) if c.obj_sig else None,
+                            "rows": [[r["sense"], list(r["sig"])] for r in c.rows],
+                            "lmis": [[l["dim"], sorted([list(k), [list(x) for x in v]] for k, v in l["pairs"].items())]
+                                     for l in c.lmis],
+                            "unreadable": c.unreadable,
+                            "status": getattr(getattr(c, "answer", None), "status", None),
+                            "obj_value": getattr(getattr(c, "answer", None), "obj", None)} for c in rec.caps]
         if self.want_raw:
             out["raw"] = [c.raw_digest for c in rec.caps]
             calls = [(c[0],) + tuple(c[2:]) if c[0] not in ("Env", "checkoutlicense", "expirylicenses") else c
